@@ -388,11 +388,6 @@ Lemma apply_ops_get os m k : msorted m ->
   m_get (apply_ops m os) k =
   match sd_last os k None with Some r => r | None => m_get m k end.
 Proof.
-  assert (forall os m init, msorted m ->
-    match sd_last os k init with Some r => r | None => m_get (apply_ops m os) k end =
-    match sd_last os k init with Some r => r | None => m_get (apply_ops m os) k end) by reflexivity.
-  clear H.
-  (* generalise: track the value the prefix of ops left *)
   assert (G : forall os m, msorted m ->
     m_get (apply_ops m os) k = match sd_last os k None with Some r => r | None => m_get m k end).
   { clear os m. induction os as [|[k0 ov] os IH] using rev_ind; intros m Hs.
@@ -575,9 +570,6 @@ Proof. eexists. vm_compute. repeat split. Qed.
 
 (* ------------------------------------------------------------------ upsidedown's merge operator *)
 
-(* SPEC of one operand on the counter: add the signed delta, never below zero, modulo 2^64 *)
-Definition counter_add (c d : Z) : Z := (Z.max 0 (c + d)) mod two64.
-
 Lemma udc_step_spec c d :
   0 <= c < two64 -> - two63 <= d < two63 -> udc_step c d = counter_add c d.
 Proof.
@@ -591,9 +583,6 @@ Qed.
 
 Lemma counter_add_range c d : 0 <= counter_add c d < two64.
 Proof. unfold counter_add. apply Z.mod_pos_bound. reflexivity. Qed.
-
-(* little-endian decoding of an encoded int64 *)
-Definition i64_bytes (d : Z) : bytes := put_le_u64 (d mod two64).
 
 Lemma le_u64_put u : 0 <= u < two64 -> le_u64 (put_le_u64 u) = Some u.
 Proof.
